@@ -336,14 +336,17 @@ func TestSoup(t *testing.T) {
 	s := ev.Open(t, id())
 	s.Watchdog(10*time.Second, 6<<30)
 	defer s.Done()
-	rp.Check(t, s, "input", func(rt *rapid.T) InputCase { return mkInput(gen.Soup(rt)) }, func(c InputCase) *rp.Fail {
+	rp.Check(t, s, "input", func(rt *rapid.T) InputCase { return mkInput(gen.WithHugeLine(rt, gen.Soup(rt))) }, func(c InputCase) *rp.Fail {
 		x := c.input()
 		s.Progress(0, []byte(x))
 		s.Tick()
-		if s.WantSample() {
+		if s.WantSample() && len(x) < 4000 {
 			s.Sample(c.Text)
 		}
 		s.Class("space_soup")
+		if len(x) > 65000 {
+			s.Class("input_with_line_around_64KiB")
+		}
 		return checkInput(id(), s, x)
 	})
 }
